@@ -617,7 +617,9 @@ impl DecodeBeatmap for Beatmap {
             y: y.parse_with_limits(MAX_COORDINATE_VALUE as f32)? as i32 as f32,
         };
 
-        let start_time = f64::parse(start_time)?;
+        // Adding zero turns `-0.0` into `0.0`, see `parse_timing_points`. The
+        // osu!taiko conversion creates effect points at hit object times.
+        let start_time = f64::parse(start_time)? + 0.0;
         let hit_object_type: HitObjectType = kind.parse()?;
 
         let mut sound: HitSoundType = sound_type.parse()?;
